@@ -108,6 +108,9 @@ def w1(ctx, Fr, F):
         k_in_fn = 0
         for bi, b in enumerate(fn["mir"]["blocks"]):
             t = b["term"]
+            if t["k"] == "Assert" and t["msg"].startswith("Overflow"):
+                debug_only += 1     # exists only in overflow-checking builds: listed, not an obligation (DESIGN §4 C17)
+                continue
             if t["k"] == "Assert":
                 n += 1
                 k_in_fn += 1
